@@ -22,7 +22,7 @@ from ..core import fhex, unhex, close
 
 ID = "C12"
 LEAN_MODULE = "EEM.Props.C12"
-BUILD_TARGETS = ["EEM.Props.C12"]
+BUILD_TARGETS = ["EEM.Props.C12", "EEM.Findings.C12"]
 DESIGN_REF = "DESIGN.md §5 C12"
 
 COEF_IDS = {
